@@ -356,11 +356,18 @@ ares_status_t ares_dns_name_write(ares_buf_t *buf, ares_llist_t **list,
   size_t                   orig_name_len;
   size_t                   pos    = ares_buf_len(buf);
   ares_array_t            *labels = NULL;
-  char                     name_copy[512];
+  /* Worst case a name of 255 wire bytes has every byte escaped as \DDD */
+  char                     name_copy[1024];
   ares_status_t            status;
 
   if (buf == NULL || name == NULL) {
     return ARES_EFORMERR; /* LCOV_EXCL_LINE: DefensiveCoding */
+  }
+
+  /* Never work on a silently truncated copy, that would write a different
+   * name than the one we were given */
+  if (ares_strlen(name) >= sizeof(name_copy)) {
+    return ARES_EBADNAME;
   }
 
   labels = ares_array_create(sizeof(ares_buf_t *), ares_dns_labels_free_cb);
@@ -369,7 +376,7 @@ ares_status_t ares_dns_name_write(ares_buf_t *buf, ares_llist_t **list,
   }
 
   /* NOTE: due to possible escaping, name_copy buffer is > 256 to allow for
-   *       this */
+   *       this, the length was validated above */
   name_len      = ares_strcpy(name_copy, name, sizeof(name_copy));
   orig_name_len = name_len;
 
